@@ -21,4 +21,90 @@ theorem structInv_step {c c' : Config} {m : Move} (h : StructInv c) (hs : step c
       | (simp at hs; done)
       | (simp only [Option.some.injEq] at hs; subst hs; constructor <;> bus_auto)
 
+/-- the order relation between two events received on one channel: per sender, increasing -/
+def OrdRel (a b : Ev) : Prop := a.sender = b.sender → a.seq < b.seq
+
+structure DelivInv (c : Config) : Prop where
+  bound : ∀ l e, e ∈ (c.ls l).recvd → e.seq ≤ (c.ss e.sender).cur
+  fresh : ∀ l e, e ∈ (c.ls l).recvd → e.seq = (c.ss e.sender).cur →
+      l ∈ (c.ss e.sender).visited ∨
+        ((c.ss e.sender).rest.head? = some l ∧ (c.ss e.sender).pc = .selected .delivered)
+  order : ∀ l, (c.ls l).recvd.Pairwise OrdRel
+  visitedOk : ∀ t l, l ∈ (c.ss t).visited →
+      (⟨t, (c.ss t).cur⟩ ∈ (c.ls l).recvd ∨ (c.ls l).cancelled = true)
+  selOk : ∀ t l, (c.ss t).rest.head? = some l →
+      ((c.ss t).pc = .selected .delivered → ⟨t, (c.ss t).cur⟩ ∈ (c.ls l).recvd) ∧
+      ((c.ss t).pc = .selected .listenCancelled → (c.ls l).cancelled = true)
+
+theorem delivInv_init (todo : Nat → Nat) : DelivInv (init todo) := by
+  constructor <;> simp [init]
+
+theorem delivInv_step {c c' : Config} {m : Move} (hL : LockInv c) (hS : StructInv c) (h : DelivInv c)
+    (hs : step c m = some c') : DelivInv c' := by
+  have hnc := @LockInv.not_closing c hL
+  obtain ⟨s1, s2, s3, s4⟩ := hS
+  obtain ⟨h1, h2, h3, h4, h5⟩ := h
+  cases m
+  case sDeliver t =>
+    simp only [step] at hs
+    split at hs
+    · simp at hs
+    · rename_i l tl heq
+      split at hs
+      · rename_i hg
+        have hold : Holding (c.ss t) l := ⟨Or.inl hg.1, by simp [heq]⟩
+        have hno := (hnc hold).2
+        split at hs
+        · rename_i hcl; exact absurd ⟨hcl, hg.2.1⟩ hno
+        · have ha : l ∉ (c.ss t).visited := by
+            have h11 := s1 t
+            have h12 := s2 t
+            rcases h11 with h11 | h11
+            · rw [hg.1] at h11; cases h11
+            · rw [← h11, heq] at h12
+              grind
+          have hb : ∀ e, e ∈ (c.ls l).recvd → e.sender = t → e.seq < (c.ss t).cur := by
+            intro e he het
+            have hle := h1 l e he
+            have hfr := h2 l e he
+            rw [het] at hle hfr
+            rcases Nat.lt_or_ge e.seq (c.ss t).cur with hlt | hge
+            · exact hlt
+            · have heq2 : e.seq = (c.ss t).cur := by omega
+              rcases hfr heq2 with hv | ⟨_, hpc⟩
+              · exact absurd hv ha
+              · rw [hg.1] at hpc; cases hpc
+          simp only [Option.some.injEq] at hs; subst hs
+          constructor
+          · bus_auto
+          · bus_auto
+          · intro l'
+            simp only [Config.setL, Config.setS, upd_apply]
+            split
+            · rename_i hl; subst hl
+              simp only [List.pairwise_append, List.pairwise_cons, List.Pairwise.nil, List.mem_singleton]
+              refine ⟨h3 _, ⟨by simp, trivial⟩, ?_⟩
+              intro a ha' b hb'; subst hb'
+              intro hsame; exact hb a ha' hsame
+            · exact h3 l'
+          · bus_auto
+          · bus_auto
+      · simp at hs
+  case sRelease t =>
+    simp only [step] at hs
+    split at hs
+    · simp at hs
+    · rename_i l tl heq
+      split at hs
+      · rename_i o hpc
+        have h5' := h5 t l (by simp [heq])
+        cases o <;> simp only [reduceCtorEq, ↓reduceIte, Option.some.injEq] at hs <;> subst hs <;>
+          constructor <;> bus_auto
+      · simp at hs
+  all_goals
+    simp only [step] at hs <;> (repeat' (split at hs)) <;>
+    first
+      | (simp at hs; done)
+      | (simp only [Option.some.injEq] at hs; subst hs; constructor <;> bus_auto)
+
 end ScVerif.C10
